@@ -73,26 +73,27 @@ func (z vSize) dataLen(ver int) int {
 }
 
 var vSizes = map[string]vSize{
-	"1B":   {"1B", 1, 1},     // one byte
-	"S-1":  {"S-1", 1, -1},   // one share minus one byte
-	"S":    {"S", 1, 0},      // exactly one share
-	"S+1":  {"S+1", 2, 1},    // one share plus one byte
-	"2S":   {"2S", 2, 0},     // exactly two shares
-	"3S":   {"3S", 3, 0},     //
-	"3S+1": {"3S+1", 4, 1},   // row of a 4-wide square
-	"5S":   {"5S", 5, -1},    // row+1 of a 4-wide square, one byte short
-	"7S":   {"7S", 7, 0},     // row-1 of an 8-wide square
-	"8S":   {"8S", 8, 0},     // row of an 8-wide square
-	"9S":   {"9S", 9, 1},     // row+1 of an 8-wide square
-	"15S":  {"15S", 15, 0},   // row-1 of a 16-wide square
-	"16S":  {"16S", 16, 0},   // row
-	"17S":  {"17S", 17, 1},   // row+1
-	"33S":  {"33S", 33, 0},   // two rows + 1
-	"65S":  {"65S", 65, 1},   // smallest blob with subtree width 2 (layout padding appears)
-	"66S":  {"66S", 66, 0},   //
-	"129S": {"129S", 129, 0}, // subtree width 4
-	"130S": {"130S", 130, -1},
-	"257S": {"257S", 257, 1}, // subtree width 8, 32-wide square
+	"1B":    {"1B", 1, 1},     // one byte
+	"S-1":   {"S-1", 1, -1},   // one share minus one byte
+	"S":     {"S", 1, 0},      // exactly one share
+	"S+1":   {"S+1", 2, 1},    // one share plus one byte
+	"2S":    {"2S", 2, 0},     // exactly two shares
+	"3S":    {"3S", 3, 0},     //
+	"3S+1":  {"3S+1", 4, 1},   // row of a 4-wide square
+	"5S":    {"5S", 5, -1},    // row+1 of a 4-wide square, one byte short
+	"7S":    {"7S", 7, 0},     // row-1 of an 8-wide square
+	"8S":    {"8S", 8, 0},     // row of an 8-wide square
+	"9S":    {"9S", 9, 1},     // row+1 of an 8-wide square
+	"15S":   {"15S", 15, 0},   // row-1 of a 16-wide square
+	"16S":   {"16S", 16, 0},   // row
+	"17S":   {"17S", 17, 1},   // row+1
+	"33S":   {"33S", 33, 0},   // two rows + 1
+	"65S":   {"65S", 65, 1},   // smallest blob with subtree width 2 (layout padding appears)
+	"66S":   {"66S", 66, 0},   //
+	"129S":  {"129S", 129, 0}, // subtree width 4
+	"130S":  {"130S", 130, -1},
+	"257S":  {"257S", 257, 1},   // subtree width 8, 32-wide square
+	"4100S": {"4100S", 4100, 0}, // filler that forces a 128-wide square
 }
 
 // namespaces: three present-able user namespaces A<B<C and probes that are never present.
@@ -291,7 +292,7 @@ func (b *vBlock) layout() string {
 	return sb.String()
 }
 
-const vMaxSquare = 64
+const vMaxSquare = 128
 
 var errVTooBig = errors.New("block does not fit")
 
